@@ -1,0 +1,108 @@
+//! Verification seam for the synchronisation used by command tags.
+//!
+//! Only compiled with `--cfg texcraft_verif_sched`; it has no dependencies.
+//! Under that cfg the name `sync` in the parent module resolves to this module instead of
+//! [std::sync], so that [Tag::new](super::Tag::new) and [StaticTag::get](super::StaticTag::get)
+//! take their locks through an externally installed, controlled scheduler
+//! (a model checker that enumerates thread schedules).
+//! Every lock acquisition and every lock release is a scheduling point.
+//!
+//! Without an installed scheduler the locks panic, so nothing but a schedule-exploration
+//! harness should ever be built with this cfg.
+use std::cell::UnsafeCell;
+
+/// The controlled scheduler. `lock` identifies a lock (the address of the [Mutex]).
+pub trait Scheduler: Sync {
+    /// Block until the lock identified by `lock` is free, then take it. A scheduling point.
+    fn acquire(&self, lock: usize);
+    /// Release the lock. A scheduling point.
+    fn release(&self, lock: usize);
+}
+
+static SCHEDULER: std::sync::OnceLock<&'static dyn Scheduler> = std::sync::OnceLock::new();
+
+/// Install the scheduler. Only the first call has an effect.
+pub fn install(s: &'static dyn Scheduler) {
+    let _ = SCHEDULER.set(s);
+}
+
+fn scheduler() -> &'static dyn Scheduler {
+    *SCHEDULER.get().expect("no scheduler installed")
+}
+
+/// A mutex with the API subset of [std::sync::Mutex] that the parent module uses.
+/// Mutual exclusion is provided by the installed [Scheduler].
+pub struct Mutex<T> {
+    data: UnsafeCell<T>,
+}
+
+unsafe impl<T: Send> Sync for Mutex<T> {}
+unsafe impl<T: Send> Send for Mutex<T> {}
+
+/// Guard returned by [Mutex::lock]; releases the lock when dropped.
+pub struct MutexGuard<'a, T> {
+    m: &'a Mutex<T>,
+}
+
+impl<T> Mutex<T> {
+    /// Create a new mutex.
+    pub const fn new(t: T) -> Self {
+        Self {
+            data: UnsafeCell::new(t),
+        }
+    }
+
+    /// Acquire the lock through the installed scheduler.
+    #[allow(clippy::result_unit_err)]
+    pub fn lock(&self) -> Result<MutexGuard<'_, T>, ()> {
+        scheduler().acquire(self as *const _ as *const () as usize);
+        Ok(MutexGuard { m: self })
+    }
+}
+
+impl<T> std::ops::Deref for MutexGuard<'_, T> {
+    type Target = T;
+    fn deref(&self) -> &T {
+        unsafe { &*self.m.data.get() }
+    }
+}
+
+impl<T> std::ops::DerefMut for MutexGuard<'_, T> {
+    fn deref_mut(&mut self) -> &mut T {
+        unsafe { &mut *self.m.data.get() }
+    }
+}
+
+impl<T> Drop for MutexGuard<'_, T> {
+    fn drop(&mut self) {
+        scheduler().release(self.m as *const _ as *const () as usize);
+    }
+}
+
+/// Same contract as [std::sync::OnceLock::get_or_init]: one initialiser runs, the others wait for it.
+pub struct OnceLock<T> {
+    cell: Mutex<Option<T>>,
+}
+
+impl<T> OnceLock<T> {
+    /// Create a new, empty cell.
+    #[allow(clippy::new_without_default)]
+    pub const fn new() -> Self {
+        Self {
+            cell: Mutex::new(None),
+        }
+    }
+
+    /// Get the value, initialising it with `f` if the cell is empty.
+    pub fn get_or_init<F: FnOnce() -> T>(&self, f: F) -> &T {
+        let mut g = self.cell.lock().unwrap();
+        if g.is_none() {
+            *g = Some(f());
+        }
+        let p: *const T = g.as_ref().unwrap();
+        drop(g);
+        // The value is never moved or dropped once set (there is no `take`), so the reference
+        // stays valid for as long as `self` does.
+        unsafe { &*p }
+    }
+}
